@@ -68,6 +68,9 @@ type otNormalizeContext struct {
 	// hb_unicode_funcs_t *unicode;
 	decompose func(c *otNormalizeContext, ab rune) (a, b rune, ok bool)
 	compose   func(c *otNormalizeContext, a, b rune) (ab rune, ok bool)
+
+	// set when a character has actually been decomposed in the first round
+	decomposed bool
 }
 
 func setGlyph(info *GlyphInfo, font *Font) {
@@ -142,6 +145,7 @@ func (c *otNormalizeContext) decomposeCurrentCharacter(shortest bool) {
 
 	if decompose(c, shortest, u) != 0 {
 		buffer.skipGlyph()
+		c.decomposed = true
 		return
 	}
 
@@ -260,6 +264,7 @@ func otShapeNormalize(plan *otShapePlan, buffer *Buffer, font *Font) {
 		font,
 		plan.shaper.decompose,
 		plan.shaper.compose,
+		false,
 	}
 
 	alwaysShortCircuit := mode == nmNone
@@ -326,6 +331,11 @@ func otShapeNormalize(plan *otShapePlan, buffer *Buffer, font *Font) {
 	}
 
 	buffer.swapBuffers()
+	if c.decomposed {
+		// a precomposed character has been decomposed: it must get the chance to be
+		// recomposed, whatever the other clusters of the buffer contain
+		allSimple = false
+	}
 	/* Second round, reorder (inplace) */
 
 	if !allSimple {
